@@ -358,7 +358,9 @@ type c15Item struct {
 	Kind      byte // P preface, S settings, A settings ack, W window update, H headers, C continuation, D data, R rst_stream, G goaway
 	Stream    uint32
 	Fields    []hpack.HeaderField
-	Split     bool // H: the header block continues in the following C item
+	Split     bool // H: the header block continues in the following C item(s)
+	Frags     int  // H with Split: number of fragments of the header block (HEADERS + Frags-1 CONTINUATION), 0 = 2
+	More      bool // C: not the last fragment (no END_HEADERS), another C item follows
 	EndStream bool
 	Data      []byte
 	Code      http2.ErrCode
@@ -374,6 +376,12 @@ func (it c15Item) String() string {
 	s := fmt.Sprintf("%c/%s/s%d", it.Kind, d, it.Stream)
 	if it.Split {
 		s += "/split"
+		if it.Frags > 2 {
+			s += fmt.Sprintf("%d", it.Frags)
+		}
+	}
+	if it.More {
+		s += "/more"
 	}
 	if it.EndStream {
 		s += "/ES"
@@ -397,7 +405,7 @@ type c15DirEnc struct {
 	henc    *hpack.Encoder
 	fbuf    bytes.Buffer
 	fr      *http2.Framer
-	pending []byte
+	pending [][]byte // fragments of the open header block still to be sent in CONTINUATION frames
 }
 
 func c15NewDirEnc() *c15DirEnc {
@@ -429,15 +437,30 @@ func (e *c15DirEnc) encode(it *c15Item) []byte {
 		block := append([]byte(nil), e.hbuf.Bytes()...)
 		first := block
 		if it.Split {
-			cut := len(block) / 2
-			first, e.pending = block[:cut], block[cut:]
+			// n fragments of (nearly) equal size: HEADERS carries the first, one
+			// CONTINUATION each of the others; cuts fall anywhere, also inside a field
+			n := it.Frags
+			if n < 2 {
+				n = 2
+			}
+			if len(block) < n {
+				panic("c15: header block shorter than its number of fragments")
+			}
+			e.pending = nil
+			for i := 1; i < n; i++ {
+				e.pending = append(e.pending, block[len(block)*i/n:len(block)*(i+1)/n])
+			}
+			first = block[:len(block)/n]
 		}
 		err = e.fr.WriteHeaders(http2.HeadersFrameParam{
 			StreamID: it.Stream, BlockFragment: first, EndStream: it.EndStream, EndHeaders: !it.Split,
 		})
 	case 'C':
-		err = e.fr.WriteContinuation(it.Stream, true, e.pending)
-		e.pending = nil
+		if len(e.pending) == 0 || (len(e.pending) > 1) != it.More {
+			panic("c15: CONTINUATION item does not match the open header block")
+		}
+		err = e.fr.WriteContinuation(it.Stream, !it.More, e.pending[0])
+		e.pending = e.pending[1:]
 	case 'D':
 		err = e.fr.WriteData(it.Stream, it.EndStream, it.Data)
 	case 'R':
@@ -480,19 +503,44 @@ func c15Prologue() []c15Item {
 // call shapes and the reference model
 
 type c15Shape struct {
-	Named    bool   `json:"named"`
-	Cont     bool   `json:"cont,omitempty"`     // request HEADERS split: HEADERS + CONTINUATION
-	NReq     int    `json:"nreq"`               // request DATA frames carrying messages
-	ReqEnd   int    `json:"reqend,omitempty"`   // 0: END_STREAM on the last request frame, 1: on an extra empty DATA
-	MsgMode  int    `json:"msgmode,omitempty"`  // 0: one message per DATA; 1: first message spread over two DATA frames; 2: all messages in one DATA frame
-	Resp     int    `json:"resp,omitempty"`     // 0: HEADERS, DATA*, trailers; 1: trailers-only
-	NResp    int    `json:"nresp"`              // response DATA frames
-	RespCont bool   `json:"respcont,omitempty"` // trailers (or the trailers-only HEADERS) split with CONTINUATION
-	Bidi     bool   `json:"bidi,omitempty"`     // response HEADERS sent right after the request HEADERS
-	Variant  string `json:"variant,omitempty"`  // "", rstc-early, rstc-mid, rsts-early, rsts-mid, refused-retry, goaway
+	Named       bool   `json:"named"`
+	Cont        bool   `json:"cont,omitempty"`        // request HEADERS split: HEADERS + CONTINUATION
+	ContN       int    `json:"contn,omitempty"`       // with Cont: number of CONTINUATION frames (0 = 1): the block has ContN+1 fragments
+	NReq        int    `json:"nreq"`                  // request DATA frames carrying messages
+	ReqEnd      int    `json:"reqend,omitempty"`      // 0: END_STREAM on the last request frame, 1: on an extra empty DATA
+	MsgMode     int    `json:"msgmode,omitempty"`     // 0: one message per DATA; 1: first message spread over two DATA frames; 2: all messages in one DATA frame
+	Resp        int    `json:"resp,omitempty"`        // 0: HEADERS, DATA*, trailers; 1: trailers-only
+	NResp       int    `json:"nresp"`                 // response DATA frames
+	RespCont    bool   `json:"respcont,omitempty"`    // trailers (or the trailers-only HEADERS) split with CONTINUATION
+	RespContN   int    `json:"respcontn,omitempty"`   // with RespCont: number of CONTINUATION frames (0 = 1)
+	RespHdrCont int    `json:"resphdrcont,omitempty"` // number of CONTINUATION frames after the (non-final) response HEADERS
+	Bidi        bool   `json:"bidi,omitempty"`        // response HEADERS sent right after the request HEADERS
+	Variant     string `json:"variant,omitempty"`     // "", rstc-early, rstc-mid, rsts-early, rsts-mid, refused-retry, goaway
 }
 
 func (s c15Shape) String() string { b, _ := json.Marshal(s); return string(b) }
+
+// number of CONTINUATION frames of the request header block / of the trailers
+// (or trailers-only) block
+func (s c15Shape) reqConts() int {
+	switch {
+	case !s.Cont:
+		return 0
+	case s.ContN > 0:
+		return s.ContN
+	}
+	return 1
+}
+
+func (s c15Shape) trailerConts() int {
+	switch {
+	case !s.RespCont:
+		return 0
+	case s.RespContN > 0:
+		return s.RespContN
+	}
+	return 1
+}
 
 func (s c15Shape) tag() string {
 	v := s.Variant
@@ -628,15 +676,20 @@ func c15CallItems(sh c15Shape, idx int) ([]c15Item, c15Want) {
 		want.Name = c15Name(idx)
 	}
 	add := func(it c15Item) { it.Call = idx; items = append(items, it) }
+	// a header block: HEADERS followed by conts CONTINUATION frames, the last one with END_HEADERS
+	addBlock := func(it c15Item, conts int) {
+		it.Split, it.Frags = conts > 0, conts+1
+		add(it)
+		for i := 0; i < conts; i++ {
+			add(c15Item{Dir: it.Dir, Kind: 'C', Stream: it.Stream, More: i < conts-1})
+		}
+	}
 
 	attempt := 1
 	if sh.Variant == "refused-retry" {
 		first := c15ReqFields(sh, idx, 1)
 		want.RefusedHdr = c15Canon(first)
-		add(c15Item{Dir: c15DirReq, Kind: 'H', Stream: id, Fields: first, Split: sh.Cont, Opens: true})
-		if sh.Cont {
-			add(c15Item{Dir: c15DirReq, Kind: 'C', Stream: id})
-		}
+		addBlock(c15Item{Dir: c15DirReq, Kind: 'H', Stream: id, Fields: first, Opens: true}, sh.reqConts())
 		add(c15Item{Dir: c15DirResp, Kind: 'R', Stream: id, Code: http2.ErrCodeRefusedStream})
 		id += 4
 		attempt = 2
@@ -692,15 +745,12 @@ func c15CallItems(sh c15Shape, idx int) ([]c15Item, c15Want) {
 		reqEnds = false
 	}
 	endOnHeaders := reqEnds && len(reqData) == 0 && sh.ReqEnd == 0
-	add(c15Item{Dir: c15DirReq, Kind: 'H', Stream: id, Fields: reqFields, Split: sh.Cont, EndStream: endOnHeaders, Opens: true})
-	if sh.Cont {
-		add(c15Item{Dir: c15DirReq, Kind: 'C', Stream: id})
-	}
+	addBlock(c15Item{Dir: c15DirReq, Kind: 'H', Stream: id, Fields: reqFields, EndStream: endOnHeaders, Opens: true}, sh.reqConts())
 	respHeaders := func() {
 		want.HasResp, want.Status = true, 200
 		f := c15RespFields(idx)
 		want.RespHdr = c15Canon(f)
-		add(c15Item{Dir: c15DirResp, Kind: 'H', Stream: id, Fields: f})
+		addBlock(c15Item{Dir: c15DirResp, Kind: 'H', Stream: id, Fields: f}, sh.RespHdrCont)
 	}
 	respStarted := false
 	wantsRespHeaders := sh.Resp == 0 && sh.Variant != "rstc-early" && sh.Variant != "rsts-early" && sh.Variant != "goaway"
@@ -734,10 +784,7 @@ func c15CallItems(sh c15Shape, idx int) ([]c15Item, c15Want) {
 	if sh.Resp == 1 {
 		f := c15TrailersOnlyFields(idx)
 		want.HasResp, want.Status, want.RespHdr = true, 200, c15Canon(f)
-		add(c15Item{Dir: c15DirResp, Kind: 'H', Stream: id, Fields: f, EndStream: true, Split: sh.RespCont})
-		if sh.RespCont {
-			add(c15Item{Dir: c15DirResp, Kind: 'C', Stream: id})
-		}
+		addBlock(c15Item{Dir: c15DirResp, Kind: 'H', Stream: id, Fields: f, EndStream: true}, sh.trailerConts())
 		return items, want
 	}
 	if !respStarted {
@@ -760,10 +807,7 @@ func c15CallItems(sh c15Shape, idx int) ([]c15Item, c15Want) {
 	}
 	tf := c15TrailerFields(idx)
 	want.Trailers = c15Canon(tf)
-	add(c15Item{Dir: c15DirResp, Kind: 'H', Stream: id, Fields: tf, EndStream: true, Split: sh.RespCont})
-	if sh.RespCont {
-		add(c15Item{Dir: c15DirResp, Kind: 'C', Stream: id})
-	}
+	addBlock(c15Item{Dir: c15DirResp, Kind: 'H', Stream: id, Fields: tf, EndStream: true}, sh.trailerConts())
 	return items, want
 }
 
@@ -780,13 +824,28 @@ func c15HasCont(items []c15Item) (req, resp bool) {
 	return
 }
 
+// c15HasChain tells whether a direction carries a header block of three or
+// more fragments (a CONTINUATION frame without END_HEADERS).
+func c15HasChain(items []c15Item) (req, resp bool) {
+	for _, it := range items {
+		if it.Kind == 'C' && it.More {
+			if it.Dir == c15DirReq {
+				req = true
+			} else {
+				resp = true
+			}
+		}
+	}
+	return
+}
+
 // ---------------------------------------------------------------------------
 // interleavings
 
 // c15Interleavings calls f with every merge of a and b (as a sequence of 0/1
 // picks) that keeps each call's own order and is well-formed HTTP/2: a
-// CONTINUATION follows its HEADERS without another frame of the same direction
-// in between, streams are opened in increasing id order, no stream is opened
+// header block (HEADERS and all its CONTINUATION frames) is not interrupted by
+// another frame of the same direction, streams are opened in increasing id order, no stream is opened
 // after a GOAWAY.  f must not retain the slice.
 func c15Interleavings(a, b []c15Item, f func(order []byte)) {
 	seq := [2][]c15Item{a, b}
@@ -829,7 +888,7 @@ func c15Interleavings(a, b []c15Item, f func(order []byte)) {
 			switch {
 			case it.Kind == 'H' && it.Split:
 				ns.pendCont[it.Dir] = c + 1
-			case it.Kind == 'C':
+			case it.Kind == 'C' && !it.More: // the CONTINUATION with END_HEADERS closes the block
 				ns.pendCont[it.Dir] = 0
 			}
 			if it.Opens {
